@@ -6,3 +6,6 @@ import Xandikos.Theorems.C02
 #print axioms Xandikos.Theorems.C02.put_returns_stored_tag
 #print axioms Xandikos.Theorems.C02.etag_changes_only_on_write
 #print axioms Xandikos.Theorems.C02.restart_keeps_etags
+#print axioms Xandikos.Theorems.C02.code_is_model
+#print axioms Xandikos.Theorems.C02.extract_inverts_create
+#print axioms Xandikos.Tie.create_strong_etag_injective
